@@ -26,42 +26,27 @@ theorem tagRef_ready {api : Api} (hapi : apiWF api = true) {ns : Namespace} (hns
   | map k v => simp [tagRef] at hr
   | nullable t => simp [tagRef] at hr
 
-/-- the names a route's attribute dictionary evaluates are ready -/
-theorem attrRefs_ready {api : Api} (hapi : apiWF api = true) {ns : Namespace} (hns : ns ∈ api.namespaces) {st : St}
-    (hctx : Ctx api st ns) (hcls : ∀ d ∈ ns.types, ClassOK api st ns d)
-    (hals : ∀ a ∈ ns.aliases, AliasOK api st ns a) :
-    ∀ (l : List (Name × AttrKind)), (l.all (fun (x : Name × AttrKind) => match x.2 with
-        | .tagRef t tag => tagOKTy api (api.nAliases + 1) t tag && tyOK api ns t
-            && aliasEndsInUser api (api.nAliases + 1) t
-        | _ => true)) = true → ∀ r ∈ attrRefs ns.name l, Ready st (modName ns) r
-  | [], _, r, hr => by simp [attrRefs] at hr
-  | (k, .plain) :: rest, h, r, hr => by
+/-- without union-tag attributes a route's attribute dictionary evaluates no generated name -/
+theorem attrRefs_noTag (cur : Name) : ∀ (l : List (Name × AttrKind)),
+    (l.all fun (x : Name × AttrKind) => x.2 != AttrKind.tagRef) = true → attrRefs cur l = []
+  | [], _ => rfl
+  | (k, .plain) :: r, h => by
     simp only [List.all_cons, Bool.and_eq_true] at h
-    simp only [attrRefs] at hr
-    exact attrRefs_ready hapi hns hctx hcls hals rest h.2 r hr
-  | (k, .timestamp) :: rest, h, r, hr => by
+    simp only [attrRefs]; exact attrRefs_noTag cur r h.2
+  | (k, .timestamp) :: r, h => by
     simp only [List.all_cons, Bool.and_eq_true] at h
-    simp only [attrRefs] at hr
-    exact attrRefs_ready hapi hns hctx hcls hals rest h.2 r hr
-  | (k, .tagRef t tag) :: rest, h, r, hr => by
-    simp only [List.all_cons, Bool.and_eq_true] at h
-    simp only [attrRefs, List.mem_append] at hr
-    rcases hr with hr | hr
-    · exact tagRef_ready hapi hns hctx hcls hals h.1.1.1 h.1.1.2 h.1.2 r hr
-    · exact attrRefs_ready hapi hns hctx hcls hals rest h.2 r hr
+    simp only [attrRefs]; exact attrRefs_noTag cur r h.2
+  | (k, .tagRef) :: r, h => by simp at h
 
 theorem routeWF_at {api : Api} (hapi : apiWF api = true) {ns : Namespace} (hns : ns ∈ api.namespaces)
     {r : Route} (hr : r ∈ ns.routes) :
     tyOK api ns r.arg = true ∧ tyOK api ns r.result = true ∧ tyOK api ns r.error = true
-      ∧ (r.attrs.all (fun (x : Name × AttrKind) => match x.2 with
-        | .tagRef t tag => tagOKTy api (api.nAliases + 1) t tag && tyOK api ns t
-            && aliasEndsInUser api (api.nAliases + 1) t
-        | _ => true)) = true := by
+      ∧ attrRefs ns.name r.attrs = [] := by
   have hw := nsWF_of_apiWF hapi hns
   simp only [nsWF, Bool.and_eq_true] at hw
   have := List.all_eq_true.mp hw.1.1.1.2 r hr
   simp only [routeWF, Bool.and_eq_true] at this
-  exact ⟨this.1.1.1, this.1.1.2, this.1.2, this.2⟩
+  exact ⟨this.1.1.1, this.1.1.2, this.1.2, attrRefs_noTag _ _ this.2⟩
 
 /-- route objects and `ROUTES` -/
 theorem sec_routes {api : Api} (hapi : apiWF api = true) {ns : Namespace} (hns : ns ∈ api.namespaces) (st : St)
@@ -103,12 +88,12 @@ theorem sec_routes {api : Api} (hapi : apiWF api = true) {ns : Namespace} (hns :
         (uses := tyRefs ns.name r.arg ++ tyRefs ns.name r.result ++ tyRefs ns.name r.error ++ attrRefs ns.name r.attrs) hwf
         (by
           intro x hx
+          rw [h4, List.append_nil] at hx
           simp only [List.mem_append] at hx
-          rcases hx with ((hx | hx) | hx) | hx
+          rcases hx with (hx | hx) | hx
           · exact rdy _ h1 x hx
           · exact rdy _ h2 x hx
-          · exact rdy _ h3 x hx
-          · exact attrRefs_ready hapi hns hctx hcls hals _ h4 x hx)
+          · exact rdy _ h3 x hx)
         (fun x hx => by simp at hx) (hfr _ (by simp)) hctx.started
       exact ⟨st', hs, by simp [hg]⟩)
     (by rw [hglob]; exact hnd'.1) st hwf ⟨hctx, hcls, hals⟩
